@@ -22,6 +22,7 @@ from vlib.desc import Ax, Num, Grp, Cat, Brk, Ell, expand, shape, show_expr, lea
 
 PROP = "C02"
 N = {"quick": 700, "thorough": 9000}
+TEMPLATE_N = 900
 Z3_TIMEOUT = {"quick": 8000, "thorough": 30000}
 DOCUMENTED_FAIL = ("RankError", "AxisSizeError")
 
@@ -592,6 +593,10 @@ def main():
         seen.add(key)
         members.append(m)
     members += fixed_members()
+    tm = template_members()
+    if tier == "quick":
+        tm = random.Random(f"c02t:{seed}").sample(tm, TEMPLATE_N)
+    members += tm
     results = runner.pmap(work, [(m, Z3_TIMEOUT[tier]) for m in members], chunksize=8)
     status = collections.Counter()
     by_tag = collections.defaultdict(collections.Counter)
@@ -667,6 +672,56 @@ def fixed_members():
         mem([(A("a", 2**31), A("b", 3))], [(2**31, 3)], {}, api, "fixed:2**31-dimension")
         mem([(A("a", 1),)], [None], {"a": 2**31}, api, "fixed:2**31-keyword")
         mem([(Grp((A("a", 2), A("b", 3))),), (Grp((A("b", 3), A("c", 5))),), (Grp((A("a", 2), A("c", 5))),)], [(6,), (15,), (10,)], {}, api, "fixed:nonlinear-unique")
+    return out
+
+
+def template_members():
+    """Shared-axis templates: an axis occurs in two sums/products, so a contradiction only shows after one
+    substitution step. Every subset of keyword sizes x every single edit (keyword +1 / *3+7, dimension +1 / *2 /
+    -> 1) x the three APIs; all of them judged by the same z3 adjudication."""
+    import itertools
+
+    def build(sz):
+        a, b, c = (Ax(n, sz[n]) for n in "abc")
+        return [
+            [(Cat((a, b)), Cat((b, c)))],
+            [(Cat((a, b)), Grp((b, c)))],
+            [(Grp((a, b)), Cat((b, c)))],
+            [(Cat((a, b)), Cat((a, c)))],
+            [(Grp((a, b)), Grp((b, c)))],
+            [(Cat((a, b)), c), (Cat((b, c)),)],
+            [(Cat((a, b, c)), Grp((a, b)))],
+            [(Cat((a, b)),), (Cat((b, c)),), (Cat((a, c)),)],
+            [(Grp((a, Cat((b, c)))), Cat((b, Num(1))))],
+            [(Cat((a, Num(1))), Grp((a, Num(2))), b)],
+            [(a, Cat((a, b))), (Grp((b, c)),)],
+            [(Grp((a, b)), c), (Cat((c, a)), b)],
+        ]
+
+    out = []
+    for sz in ({"a": 2, "b": 3, "c": 4}, {"a": 1, "b": 1, "c": 2}, {"a": 3, "b": 2, "c": 2}):
+        for exprs in build(sz):
+            names = sorted({l.name for e in exprs for l, _ in leaves(expand(e)) if isinstance(l, Ax)})
+            shapes0 = [tuple(shape(expand(e))) for e in exprs]
+            for r in range(len(names) + 1):
+                for given in itertools.combinations(names, r):
+                    kw0 = {n: sz[n] for n in given}
+                    edits = [("none", None, None)]
+                    for n in given:
+                        edits += [("kw+1", n, sz[n] + 1), ("kw*3+7", n, sz[n] * 3 + 7)]
+                    for i, s_ in enumerate(shapes0):
+                        for j, d in enumerate(s_):
+                            edits += [("dim+1", (i, j), d + 1), ("dim*2", (i, j), d * 2)] + ([("dim->1", (i, j), 1)] if d != 1 else [])
+                    for tag, where, val in edits:
+                        kw, shapes = dict(kw0), list(shapes0)
+                        if tag.startswith("kw"):
+                            kw[where] = val
+                        elif tag.startswith("dim"):
+                            s_ = list(shapes[where[0]])
+                            s_[where[1]] = val
+                            shapes[where[0]] = tuple(s_)
+                        for api in ("solve_axes", "solve_shapes", "matches"):
+                            out.append({"exprs": tuple(exprs), "shapes": shapes, "kwargs": kw, "api": api, "tag": "template:" + tag, "desc": ", ".join(show_expr(e) for e in exprs)})
     return out
 
 
